@@ -261,6 +261,29 @@ type colWrap struct {
 
 func (c colWrap) Type() ColumnType { return c.t }
 
+// Embedded interface promotes only Column methods, so state and preparation
+// of wrapped column should be forwarded explicitly.
+
+func (c colWrap) DecodeState(r *Reader) error {
+	if s, ok := c.Column.(StateDecoder); ok {
+		return s.DecodeState(r)
+	}
+	return nil
+}
+
+func (c colWrap) EncodeState(b *Buffer) {
+	if s, ok := c.Column.(StateEncoder); ok {
+		s.EncodeState(b)
+	}
+}
+
+func (c colWrap) Prepare() error {
+	if v, ok := c.Column.(Preparable); ok {
+		return v.Prepare()
+	}
+	return nil
+}
+
 // Wrap Column with type parameters.
 //
 // So if c type is T, result type will be T(arg0, arg1, ...).
